@@ -299,6 +299,55 @@ theorem psc_trace_mode (ht : env.traceMode = true) :
   unfold psdSafeCholeskyCore
   simp only [ht, Bool.true_or, if_true, Except.map, factors_map, List.map_map, Function.comp_def, initMember, and_self]
 
+/-! ### The operator route `op.cholesky(upper)` -/
+
+/-- **Operator route, size ≠ 1**: `op.cholesky(upper)` of a dense-backed operator is `psd_safe_cholesky(dense, upper)` with
+jitter and max_tries from the settings — same factors, calls, warnings, perturbed batch and (untouched) input; every theorem
+above applies. -/
+theorem op_route_eq_psc (sqrtClamp : M → F) (size : Nat) (hs : size ≠ 1) (upper : Bool) :
+    (opCholesky ops sqrtClamp size c env upper A).result = (psdSafeCholesky ops c env { upper := upper } A).result ∧
+    (opCholesky ops sqrtClamp size c env upper A).calls = (psdSafeCholesky ops c env { upper := upper } A).calls ∧
+    (opCholesky ops sqrtClamp size c env upper A).warns = (psdSafeCholesky ops c env { upper := upper } A).warns ∧
+    (opCholesky ops sqrtClamp size c env upper A).work = (psdSafeCholesky ops c env { upper := upper } A).work ∧
+    (opCholesky ops sqrtClamp size c env upper A).input = (psdSafeCholesky ops c env { upper := upper } A).input := by
+  have hcore : psdSafeCholeskyCore ops c env { upper := upper } A = psdSafeCholeskyCore ops c env {} A := rfl
+  have hw := wrapper_result ops c env {} A
+  refine ⟨?_, ?_, ?_, ?_, ?_⟩
+  · rw [wrapper_result, hcore]
+    unfold opCholesky
+    simp only [hs, if_false]
+    cases upper
+    · simp only [Bool.false_eq_true, if_false, hw]
+    · simp only [if_true, hw]
+      cases (psdSafeCholeskyCore ops c env {} A).result <;> simp [Except.map, orient]
+  all_goals
+    first
+      | rw [wrapper_calls, hcore, ← wrapper_calls ops c env {} A]
+      | rw [wrapper_warns, hcore, ← wrapper_warns ops c env {} A]
+      | rw [wrapper_work, hcore, ← wrapper_work ops c env {} A]
+      | rw [wrapper_input, hcore, ← wrapper_input ops c env {} A]
+    unfold opCholesky
+    simp only [hs, if_false]
+    cases upper <;> simp
+
+/-- **Operator route, 1×1 shortcut** (`evaluated_mat.clamp_min(0.0).sqrt()` in `LinearOperator._cholesky`): no `cholesky_ex`
+call, no jitter, no warning, never an error, input untouched — `psd_safe_cholesky` is not involved for 1×1 operators. -/
+theorem op_route_scalar_shortcut (sqrtClamp : M → F) (upper : Bool) :
+    (opCholesky ops sqrtClamp 1 c env upper A).result = .ok (A.map fun a => orient ops upper (sqrtClamp a)) ∧
+    (opCholesky ops sqrtClamp 1 c env upper A).calls = 0 ∧ (opCholesky ops sqrtClamp 1 c env upper A).warns = [] ∧
+    (opCholesky ops sqrtClamp 1 c env upper A).input = A := by
+  unfold opCholesky
+  cases upper <;> simp [Except.map, orient, Function.comp_def]
+
+/-- The *function* has no size shortcut: on 1×1 members (any `M`) it behaves as on every other size — in particular a
+non-PD, NaN-free 1×1 batch that fails every try raises (instance of `psc_all_fail_raises_partial`), shown here on a concrete
+1×1 batch `[-5]` with jitter 1 and 3 tries: four calls, three warnings, NotPSDError. -/
+theorem psc_scalar_members_no_shortcut :
+    let o := psdSafeCholesky (M := Int) (F := Int) (α := Int)
+      { cholEx := fun a => (a, if a > 0 then 0 else 1), hasNan := fun _ => false, addDiag := fun a x => a + x, transposeF := id }
+      { base := 10, clones := true, jitterNewBound := true } { settingsJitter := 1, settingsMaxTries := 3, traceMode := false } {} [-500, 4]
+    o.result = .error .notPSDError ∧ o.calls = 4 ∧ o.warns = [1, 10, 100] := by decide
+
 /-! ### Per-member theorems (what `memberAfter … (k+1)` is) -/
 
 variable (base : Nat) (jitter : α)
@@ -434,6 +483,16 @@ theorem psc_all_fail_raises (ht : env.traceMode = false) (hinfo : ∃ a ∈ A, (
   rcases hpos with hp | hb
   · rw [if_neg (fun hh => by omega)]
   · rw [if_neg (fun hh => by simp [hb] at hh)]
+
+/-- Neither function has an exit (size shortcut or other) before the first `cholesky_ex` / before the call of the core, the
+wrapper forwards all arguments; the only size shortcut is the 1×1 one of `LinearOperator._cholesky` modelled by `opCholesky`,
+and `cholesky(upper)` transposes the lower factor. -/
+theorem gen_no_shortcut :
+    C16.coreEarlyExits = 0 ∧ C16.wrapperEarlyExits = 0 ∧
+    C16.wrapperCoreCall = "_psd_safe_cholesky(A, out=out, jitter=jitter, max_tries=max_tries)" ∧
+    C16.opShortcutTest = "evaluated_mat.size(-1) == 1" ∧
+    C16.opShortcutReturn = "TriangularLinearOperator(evaluated_mat.clamp_min(0.0).sqrt())" ∧
+    C16.opPscCall = "psd_safe_cholesky(evaluated_mat, upper=upper)" ∧ C16.opCholeskyCallsLower = true := by decide +kernel
 
 /-- The input-immutability theorem applies to today's source. -/
 theorem psc_input_unchanged_generated (base : Nat) :
